@@ -187,7 +187,10 @@ class ParallelogramBoundary(BoundaryDomain):
         return torch.logical_or(x_close, y_close)
 
     def _bary_coords_close_to_0_or_1(self, bary_coord1, bary_coord2):
-        between_0_1 = torch.logical_and(0 <= bary_coord2, bary_coord2 <= 1)
+        # the edge includes its end points (the corners), up to the same tolerance
+        between_0_1 = torch.logical_and(
+            -BARY_ATOL <= bary_coord2, bary_coord2 <= 1 + BARY_ATOL
+        )
         close_to_0 = torch.isclose(bary_coord1, torch.tensor(0.0), atol=BARY_ATOL)
         close_to_1 = torch.isclose(bary_coord1, torch.tensor(1.0), atol=BARY_ATOL)
         return torch.logical_and(torch.logical_or(close_to_1, close_to_0), between_0_1)
